@@ -58,4 +58,7 @@ func init() {
 	setProp("C18", "DESIGN.md §4 C18",
 		"Decides: the per-coordinate equality (type, XY tolerance, exact Z/M), the identifications IgnoreOrder allows for line strings (identity; reversal; rotation only between two rings), completeness and soundness of the backtracking member matcher, and that every composite comparator compares counts and coordinate types.",
 		"equivalence with WKB equality on all inputs; behaviour of tolerance beyond the squared-distance test.")
+	setProp("C13", "DESIGN.md §4 C13",
+		"Decides: the orientation predicate equals the sign of the cross product on every lattice model; both hull loops pop on the same `!= leftTurn` predicate; XY.Cross forbids fused multiply-add; no slice is created with a non-zero length and then only appended to (spurious zero points in the hull input); the hull polygon is validated and the validated value returned.",
+		"minimality of the hull, idempotence, correctness of the rotating calipers (their dependence on ring winding).")
 }
